@@ -72,6 +72,11 @@ CHECKS = {
             "For every accepted query within k<=2 (quick) / k<=3 (thorough) deviations, every applicable instance of: T1 add a filter (subset), T2 raise recursion depth (superset), T3 make an edge @optional (superset), T4 parameterised edge vs equivalent filter (equal), T5 '=' vs one_of [x] (equal), T6 filter / negation partition (disjoint union), T7 rename outputs and tags (equal up to keys), T8 swap adjacent siblings (equal), over 10 datasets and argument maps. Applicability conditions (not inside a fold; T6 also not under @optional; T4 not @optional/@recurse) are stated in the code next to each transformation.",
             "Both sides are engine runs (no reference evaluator); quick tier applies T1/T6 to queries within k-1 deviations only.",
             "DESIGN.md §4 C23"),
+    "C25": ("fault_enumeration",
+            "exhaustive single-fault enumeration: every (fault kind x resolver x type x field x context position) inside the checker's documented scope, over a bounded-exhaustive family of schemas, each run through the real check_adapter_invariants",
+            "For ~800 (quick) / ~4600 (thorough) accepted schemas (repository test schemas, S-verif, the C19 document family): the honest generic adapter passes; each single violation {adjacent contexts swapped, non-null property / one neighbour / true coercion for a vertex-less context} at each of 3 positions of each property (incl. __typename), each in-scope edge and each declared implements pair makes the checker panic. A checker run that passes is a violation, distinguishing 'never called the resolver' from 'called it and missed the fault'.",
+            "Faults are committed by a wrapper of the harness's generic adapter; dropped contexts are injected too but only counted (the property does not list them).",
+            "DESIGN.md §4 C25"),
     "C06": ("model_checking",
             "explicit-state search over candidate values: BFS closure from ~1300 seed states, every transition calls the real intersect / exclude_single_value / normalize and is compared with a reference denotation (bitmask over a probe universe)",
             "All seed candidates (Impossible, All, Single, Multiple up to 3 values in both orders, every Range over the bound alphabet with every bound kind and null inclusion) for an integer sort (signed/unsigned boundaries) and a string sort; every ordered pair is intersected, every value excluded, every state normalised; the state space is closed under these operations (no new states appear), so the search is a fixpoint.",
